@@ -159,6 +159,24 @@ def inferTreeEnsembleRegressor (nTargets : Option Nat) (x : ITy) : Res :=
   | some (_, [n, _]) => .ok [tensor .f32 [n, optDim nTargets]]
   | some _ => .err .inference
 
+/-! ### Non-tensor (Sequence / Optional) inputs
+
+Outside `Ty`: what each routine does when an input's type is not a Tensor. -/
+
+inductive NonTensorOutcome
+  | typeErr        -- `unwrap_tensor` raises TypeError
+  | inferenceErr   -- ONNX's own inference (called first) rejects the input
+  | passThrough    -- the routine returns the input's type unchanged (no eager check)
+  deriving DecidableEq, Repr
+
+def nonTensorOutcome : String → Option NonTensorOutcome
+  | "Binarizer" => some .passThrough
+  | "Normalizer" => some .passThrough
+  | "Compress" => some .inferenceErr
+  | "ArrayFeatureExtractor" | "CategoryMapper" | "Imputer" | "LinearRegressor" | "OneHotEncoder"
+  | "Scaler" | "TreeEnsembleClassifier" | "TreeEnsembleRegressor" => some .typeErr
+  | _ => none
+
 /-! ### ai.onnx: Compress -/
 
 /-- Python index normalisation for `shape[axis]` after the range check `-rank <= axis < rank`. -/
